@@ -25,7 +25,7 @@ fn composite_odd(n: u64) -> bool {
 
 fn pair(r: Option<(u64, u64)>) -> Value {
     match r {
-        Some((a, b)) => json!([a, b]),
+        Some((a, b)) => json!([a.min(i32::MAX as u64), b.min(i32::MAX as u64)]), // TLC integers are 32-bit; a word that large is wrong anyway
         None => json!([]),
     }
 }
@@ -95,8 +95,9 @@ pub fn run(args: &Args) -> i32 {
                     "rho64_batch" => pair(pollard_rho::rho64(n, c, iters)),
                     "semi_batch" => pair(pollard_rho::rho_semiprime(n)),
                     _ => match pollard_rho::rho(&Uint::from(n), Verbosity::Silent) {
-                        Some((f, r)) if f.len() == 1 => json!([f[0].digits()[0], r.digits()[0]]),
-                        Some((f, r)) => json!([f.len() as u64 + 1000, r.digits()[0]]), // not the documented shape: rejected by the spec
+                        Some((f, r)) if f.len() == 1 => pair(Some((f[0].digits()[0], r.digits()[0]))),
+                        // several factors at once (not what the code does today, but allowed): judged as (their product, rest)
+                        Some((f, r)) => pair(Some((f.iter().fold(1u64, |a, x| a.saturating_mul(x.digits()[0])), r.digits()[0]))),
                         None => json!([]),
                     },
                 })
